@@ -18,7 +18,10 @@ static bool drawn(const U::Rule& r)
 extern "C" void harness(void)
 {
   SA A; A.nrules = U::Univ<NS>::count();
-  for (unsigned i = 0; i < A.nrules; ++i) A.pres[i] = drawn(U::Univ<NS>::rule(i)) ? vs_bit() : false;
+#ifndef RMASK
+#define RMASK ~0ul      // candidate rules (bit i = universe rule i)
+#endif
+  for (unsigned i = 0; i < A.nrules; ++i) A.pres[i] = (drawn(U::Univ<NS>::rule(i)) && (i >= 64 || ((RMASK >> i) & 1))) ? vs_bit() : false;
   for (unsigned s = 0; s < NS; ++s) A.fin[s] = vs_bit();
 #ifdef KF_EXCLUDE
   KF_EXCLUDE
